@@ -132,7 +132,8 @@ class Audit:
 
 def observe(iface, app, path, audit, root="", query=b"", host=None):
     from baize.exceptions import HTTPException
-    req = drivers.Req(path=path.encode("utf-8"), root=root.encode("utf-8"), server=("t", 80), query=query,
+    given = getattr(app, "vf_path_prefix", "") + path  # (a dispatcher in front strips its own prefix again)
+    req = drivers.Req(path=given.encode("utf-8"), root=root.encode("utf-8"), server=("t", 80), query=query,
                       headers=[("Host", host)] if host is not None else [])
     audit.events.clear()
     audit.window = True
@@ -208,6 +209,61 @@ def judge(ctx, audit, iface, kind, form, served_abs, app, path, root=""):
     return got
 
 
+def compositions(ctx, audit, root):
+    """(1) Pages(site, handle_404=Files(assets)): what the pages app does not have is looked up, under the SAME path, by the files app;
+    (2) the configured directory itself is replaced (renamed away, a new one put in its place - an atomic deploy): the new tree is served"""
+    import shutil
+
+    from baize import asgi, wsgi
+    site = os.path.join(root, "static")
+    assets = os.path.join(root, "assets-fallback")
+    ATREE = {"logo.png": "ASSET-LOGO", "draft.html": "ASSET-DRAFT-HTML", "draft": "ASSET-DRAFT", "only.txt": "ASSET-ONLY", "dir/deep.txt": "ASSET-DEEP", "a.txt.html": "ASSET-A-HTML"}
+    make_tree(assets, ATREE)
+    for iface, ns in (("wsgi", wsgi), ("asgi", asgi)):
+        app = ns.Pages(site, handle_404=ns.Files(assets))
+        for path in ["/" + k for k in ATREE] + ["/" + rel for rel in list(TREE)[:6]] + ["/nope", "/dir/nope", "/logo", "/only.txt.html", "/../secret.txt", "/dir/", "/"]:
+            exp = model("Pages", site, path)
+            if exp == {("404",)}:
+                exp = model_simple(assets, ATREE, path)
+            got, opens = observe(iface, app, path, audit)
+            ctx.mon("pages-with-files-fallback")
+            case = {"iface": iface, "app": "Pages(site, handle_404=Files(assets))", "path": path}
+            if got not in exp:
+                ctx.violation(f"fallback-app-sees-another-path|{iface}" if ("404",) in (exp | {got}) else f"wrong-file-served|fallback|{iface}", case, f"expected one of {sorted(exp)}, got {got}")
+            for p in opens:
+                if not any(p == d or p.startswith(d + "/") for d in (site, assets)):
+                    ctx.violation("open-outside-served-directory", case, f"opened {p}")
+            ctx.case(("fallback", iface, path))
+    swap = os.path.join(root, "swapped")
+    for iface, ns in (("wsgi", wsgi), ("asgi", asgi)):
+        for kind in ("Files", "Pages"):
+            for d in (swap, swap + ".old", swap + ".new"):
+                shutil.rmtree(d, ignore_errors=True)
+            make_tree(swap, {"a.txt": "OLD-A", "gone.txt": "OLD-GONE", "index.html": "OLD-INDEX"})
+            app = getattr(ns, kind)(swap)
+            first, _ = observe(iface, app, "/a.txt", audit)
+            make_tree(swap + ".new", {"a.txt": "NEW-A-LONGER", "new.txt": "NEW-NEW", "index.html": "NEW-INDEX"})
+            os.rename(swap, swap + ".old")
+            os.rename(swap + ".new", swap)
+            ctx.mon("directory-replaced")
+            case = {"iface": iface, "app": kind, "served_directory_replaced_by_a_new_one_after_the_first_request": True}
+            if first != ("200", "OLD-A"):
+                ctx.violation(f"existing-file-not-served|{iface}", case, f"before the swap: {first}")
+            for path, want in (("/a.txt", ("200", "NEW-A-LONGER")), ("/new.txt", ("200", "NEW-NEW")), ("/gone.txt", ("404",))) + ((("/", ("200", "NEW-INDEX")),) if kind == "Pages" else ()):
+                got, _ = observe(iface, app, path, audit)
+                if got != want:
+                    ctx.violation(f"directory-replaced|old-tree-still-consulted|{iface}", dict(case, path=path), f"expected {want}, got {got}")
+            ctx.case(("swap", iface, kind))
+
+
+def model_simple(base, tree, path):
+    """Files over a flat description of a tree: the lexical resolution of `path` names a regular file of `tree` -> its content"""
+    inside, rel, slash = resolve(base, path)
+    if inside and rel in tree and not slash:
+        return {("200", tree[rel])}
+    return {("404",)}
+
+
 def in_flight(ctx, iface, kind, app, paths, pre=None):
     from vf import inflight
     reqs = [drivers.Req(path=p.encode("utf-8"), server=("t", 80)) for p in paths]
@@ -278,6 +334,20 @@ def run(ctx):
             for iface, ns in (("wsgi", wsgi), ("asgi", asgi)):
                 for kind in ("Files", "Pages"):
                     apps[(form, iface, kind)] = (abs_dir, getattr(ns, kind)(**kw))
+        # behind a dispatcher that sets PATH_INFO for the call and puts back what the server gave as soon as the call returns
+        # (the response iterable is consumed afterwards): what is served is decided by the path the app was called with
+        def behind_restoring_mount(inner):
+            def disp(environ, start_response):
+                given = environ["PATH_INFO"]
+                environ["PATH_INFO"] = given[len("/mnt"):]
+                try:
+                    return inner(environ, start_response)
+                finally:
+                    environ["PATH_INFO"] = given
+            disp.vf_path_prefix = "/mnt"
+            return disp
+        for kind in ("Files", "Pages"):
+            apps[("absolute-behind-restoring-mount", "wsgi", kind)] = (served, behind_restoring_mount(getattr(wsgi, kind)(served)))
         # the same relative directory string, given by another application object from another working directory: another tree
         os.chdir(pkg)
         for iface, ns in (("wsgi", wsgi), ("asgi", asgi)):
@@ -370,6 +440,7 @@ def run(ctx):
             (form, iface, kind), (abs_dir, app) = rng.choice(list(apps.items()))
             judge(ctx, audit, iface, kind, form, abs_dir, app, path)
             ctx.case(("long", form, iface, kind, path))
+        compositions(ctx, audit, os.path.dirname(served))  # (`root` was reused as a loop variable above)
         # ---- several requests in flight on one app object: each client gets the file it asked for (vf/inflight.py)
         pool = ["/" + rel for rel in TREE] + ["/dir", "/dir/", "/", "/nope", "/dir/nope.txt", "/../secret.txt", "/dir/../a.txt"]
         from vf import inflight
@@ -405,6 +476,10 @@ def replay(ctx, case):
     cwd0 = os.getcwd()
     os.chdir(root)
     try:
+        if case.get("app", "").startswith("Pages(site") or "served_directory_replaced_by_a_new_one_after_the_first_request" in case:
+            compositions(ctx, audit, root)
+            ctx.case(1)
+            return
         ns = wsgi if case["iface"] == "wsgi" else asgi
         form = case.get("directory_form", "absolute")
         kw = {"absolute": dict(directory=served), "absolute+handle_404": dict(directory=served), "relative": dict(directory="static"), "relative-dot": dict(directory="./static/../static/"),
